@@ -467,7 +467,7 @@ func genC15(tier string, seed uint64, emit func(string)) {
 	// 2. shapes x values x every subset of optional fields
 	n := 300
 	if tier == "thorough" {
-		n = 15000
+		n = 6000
 	}
 	names := []string{"flat", "emb1", "emb2", "iface", "ifacenil", "dup", "allopt"}
 	for _, name := range names {
